@@ -672,7 +672,7 @@ pub fn history(tr: &mut Tracer, w: &mut World, rng: &mut Rng, p: &Profile) {
                 4 => { tr.step(w, &Op::Eng { sender: STRANGER, funds: 0, m: EMsg::UpdCfg { owner: Some(STRANGER), ifund: None, fpool: None, init: None, maint: None, plr: None, liqfee: None } }); }
                 5 => { tr.step(w, &Op::Eng { sender: STRANGER, funds: 0, m: EMsg::SetPause(true) }); }
                 6 => { tr.step(w, &Op::Vamm { sender: t, v, m: VMsg::SwapIn { dir: Dir::Add, q: d, lim: 0, cgo: false } }); }
-                7 => { tr.step(w, &Op::If { sender: t, m: IMsg::Withdraw(d) }); }
+                7 => { let who = if rng.chance(1, 2) { ID_OWNER } else { t }; tr.step(w, &Op::If { sender: who, m: IMsg::Withdraw(d) }); }
                 8 => { if w.d.native { let op = Op::Eng { sender: t, funds: d / 2, m: EMsg::Open { vamm: v, side: Side::Buy, margin: d, lev: d, limit: 0 } }; tr.step(w, &op); }
                        else { tr.step(w, &Op::Eng { sender: STRANGER, funds: 0, m: EMsg::Open { vamm: v, side: Side::Buy, margin: d, lev: d, limit: 0 } }); } }
                 _ => { tr.step(w, &Op::Eng { sender: t, funds: 0, m: EMsg::Withdraw { vamm: v, amt: d * 1_000_000 } }); }
